@@ -160,10 +160,10 @@ PROPS['C03'] = dict(
     domains=['ver', 'build', 'unm'],
     no_model={'ver': True},
     n=dict(quick=dict(ver=3000, build=800, unm=800), thorough=dict(ver=150000, build=40000, unm=40000)),
-    theorems=[('Properties.C03', ['C03_fail_reports_wrong_length', 'C03_fail_reports_wrong_block_digest', 'C03_warn_reports_and_returns', 'C03_correct_values_are_never_reported', 'C03_ignore_reports_nothing', 'C03_base16_case_insensitive', 'C03_fail_reports_wrong_payload_digest'])],
+    theorems=[('Properties.C03', ['C03_fail_reports_wrong_length', 'C03_fail_reports_wrong_block_digest', 'C03_warn_reports_and_returns', 'C03_correct_values_are_never_reported', 'C03_ignore_reports_nothing', 'C03_base16_case_insensitive', 'C03_fail_reports_wrong_payload_digest', 'C03_warn_repairs_length_and_block_digest', 'C03_warn_repairs_payload_digest', 'C03_repaired_text_is_the_digest_of_the_fed_bytes'])],
     kinds={'panic', 'unreported', 'false-report', 'repair-untruthful', 'resource-payload-digest'},
     rule='ver: builder and parser path, generic/HTTP/warc-fields/revisit blocks, declared Content-Length correct/shorter/longer, block and payload digests in every algorithm x encoding x letter case x name spelling (sha1, SHA1, sha-1), correct or corrupted at a random position; expectation computed independently (Go crypto + stdlib decoders, encoding-agnostic); warn and fail; repairs checked under warn',
-    level_text='Proved in Coq about ValidateDigest (the same function on the builder and parser path): under fail a disagreeing length, then a disagreeing block digest, then a disagreeing payload digest (HTTP payload; whole block of a resource record) is the error; under warn they are findings and the record is returned; correct declared values are never reported under any policy (soundness); ignore reports nothing; base16 is case-insensitive. The defect that resource records never had their payload digest verified was found by this check and repaired.',
+    level_text='Proved in Coq about ValidateDigest (the same function on the builder and parser path): under fail a disagreeing length, then a disagreeing block digest, then a disagreeing payload digest (HTTP payload; whole block of a resource record) is the error; under warn they are findings and the record is returned; correct declared values are never reported under any policy (soundness); ignore reports nothing; base16 is case-insensitive; and the last sentence: with the repair options on under warn, a declared Content-Length afterwards is the decimal text of the true block length, and a declared block digest / payload digest that disagreed is afterwards algorithm:encoding(hash of exactly the bytes of the block / payload) (C03_warn_repairs_*). The defect that resource records never had their payload digest verified was found by this check and repaired.',
     level_note='Trusted: Coq kernel, extraction (ExtrOcamlBasic), harness and generators. Oracles: hash functions (Python hashlib), base32/base64 decoders, mime.WordDecoder, net/http header parsing, whatwg-url, net.ParseIP, time.Parse, Unicode case mapping; klauspost gzip (a member is its payload; a cut member yields a payload prefix then io.ErrUnexpectedEOF). bufio.Reader is remaining bytes + a persistent tail condition. Findings are compared by coarse kind derived from error texts. "Disagrees" is at the level of decoded bytes; the base32/base64 decoders are oracles.',
     assumptions=[],
 )
@@ -181,10 +181,10 @@ PROPS['C06'] = dict(
 PROPS['C07'] = dict(
     id='C07', domains=['pol', 'unm', 'validate'], no_model={'pol': True},
     n=dict(quick=dict(pol=2500, unm=1000, validate=300), thorough=dict(pol=100000, unm=40000, validate=20000)),
-    theorems=[('Properties.C07', ['C07_header_validation_keeps_every_field', 'C07_digest_verification_changes_nothing_with_repairs_off', 'C07_clean_record_carries_a_block_of_the_declared_length'])],
+    theorems=[('Properties.C07', ['C07_header_validation_keeps_every_field', 'C07_digest_verification_changes_nothing_with_repairs_off', 'C07_clean_record_carries_a_block_of_the_declared_length', 'C07_two_policy_settings_return_the_same_record'])],
     kinds={'panic', 'block-shortened', 'short-stream-under-ignore', 'policy-changes-header', 'policy-changes-block', 'value-destroyed'},
     rule='pol: streams with invalid field values, illegal fields, wrong lengths (shorter, longer, non-canonical spelling) and digests, bare-LF line ends, plain or gzip, read under two policy settings with repairs all-off or default: header fields and block bytes equal (repairs off) or differing only in Content-Length / digest fields / appended CRLF (repairs on); every returned record delivers its declared block or an error/finding; unm/validate: model correspondence',
-    level_text='Proved in Coq: header validation under ignore and warn returns exactly the header fields it was given, whatever is wrong with them (the defect that warn replaced invalid values by the empty string was found here and repaired); with the add/repair options off, length and digest verification never changes a header field under any policy; and the block clause: for every stream and option setting with the spec policy above ignore, a record that the parser returns with no error and no finding has a block of exactly the declared length - never silently empty or shortened (C07_clean_record_carries_a_block_of_the_declared_length). With the spec policy at ignore the length check is off and a stream that ends early goes unnoticed: that is the known finding short-stream-under-ignore (the defect that spec ignore drained the block was found here and repaired). Equality of header values and block bytes across policies with repairs off is additionally evaluated on the implementation (domain pol).',
+    level_text='Proved in Coq: for the WHOLE parser on plain streams, with the add-missing and repair options off, any two policy settings that both return a record without error return the same record - version, type, header fields and values, block bytes - and the same rest of the stream (C07_two_policy_settings_return_the_same_record; both agree with the all-ignore run, which cannot be the one that errs because rejection is monotone); stage facts: header validation under ignore and warn returns exactly the header fields it was given, whatever is wrong with them (the defect that warn replaced invalid values by the empty string was found here and repaired); with the add/repair options off, length and digest verification never changes a header field under any policy; and the block clause: for every stream and option setting with the spec policy above ignore, a record that the parser returns with no error and no finding has a block of exactly the declared length - never silently empty or shortened (C07_clean_record_carries_a_block_of_the_declared_length). With the spec policy at ignore the length check is off and a stream that ends early goes unnoticed: that is the known finding short-stream-under-ignore (the defect that spec ignore drained the block was found here and repaired). Equality of header values and block bytes across policies with repairs off is additionally evaluated on the implementation (domain pol).',
     level_note='Trusted: Coq kernel, extraction (ExtrOcamlBasic), harness and generators. Oracles: hash functions (Python hashlib), base32/base64 decoders, mime.WordDecoder, net/http header parsing, whatwg-url, net.ParseIP, time.Parse, Unicode case mapping; klauspost gzip (a member is its payload; a cut member yields a payload prefix then io.ErrUnexpectedEOF). bufio.Reader is remaining bytes + a persistent tail condition. Findings are compared by coarse kind derived from error texts. Known finding: under spec ignore a stream that ends before the declared length yields a silently shortened block.',
     assumptions=[],
 )
@@ -202,10 +202,10 @@ PROPS['C08'] = dict(
 PROPS['C04'] = dict(
     id='C04', domains=['writer', 'unm', 'wcont'], no_model={'wcont': True},
     n=dict(quick=dict(writer=500, unm=1500, wcont=150), thorough=dict(writer=30000, unm=60000, wcont=5000)),
-    theorems=[('Properties.C04', ['C04_offsets_are_positions', 'C04_write_appends_at_the_reported_offset'])],
+    theorems=[('Properties.C04', ['C04_offsets_are_positions', 'C04_write_appends_at_the_reported_offset', 'C04_a_reported_offset_is_a_record_position'])],
     kinds={'panic', 'wrong-position', 'eof-offset', 'unreadable-file', 'reopen-mismatch', 'delivery-dependent'},
     rule='writer: 1 worker, 2-7 records of sizes around the limit, limits from half a record to unlimited, compression on/off, ratios 0.25-2, warcinfo on/off, flush on/off, 1-6 operations (single writes, batches of 2-3, the same record object written again, Rotate), a repeating name generator with empty in-progress suffix; every response is checked by opening a fresh reader at (file, offset) and by a sequential read (same offsets, EOF offset = file length); unm: for every cleanly read record of every generated stream (junk between records, plain and gzip) a fresh reader opened at the reported offset must return the same record',
-    level_text="Proved in Coq for every sequence of Write (single, batched, repeated objects) and Rotate, every limit/compression/warcinfo configuration and every injective name generator: every response without error names a file that in the end contains the serialized (stamped) record as exactly one entry starting at exactly the reported offset, with BytesWritten its uncompressed length (C04_offsets_are_positions, by an invariant over all reachable writer states); Write appends at the end of the current file, whose size is the reported offset. That a reader positioned there returns that record is the subject of C01 (stage theorems) and is evaluated on the implementation for every response. The writer model agrees with the implementation on names, offsets, sizes (incl. gzip member sizes) and callbacks for every generated sequence. The defect 'first record of a rotated file reports the size of the previous file' was found here and repaired.",
+    level_text="Proved in Coq for every sequence of Write (single, batched, repeated objects) and Rotate, every limit/compression/warcinfo configuration and every injective name generator: every response without error names a file that in the end contains the serialized (stamped) record as exactly one entry starting at exactly the reported offset, with BytesWritten its uncompressed length (C04_offsets_are_positions, by an invariant over all reachable writer states); Write appends at the end of the current file, whose size is the reported offset. That a reader positioned there returns that record is the subject of C01 (now proved end to end) and is evaluated on the implementation for every response. Reader side, last sentence (C04_a_reported_offset_is_a_record_position): for every plain stream and option setting, whatever offset Unmarshal reports for a record - also after skipping junk - is a position from which a fresh reader returns that same record (same record, error state and rest of stream; the record parser is blind to the findings it is handed). The writer model agrees with the implementation on names, offsets, sizes (incl. gzip member sizes) and callbacks for every generated sequence. The defect 'first record of a rotated file reports the size of the previous file' was found here and repaired.",
     level_note='Trusted: Coq kernel, extraction, harness. The file system is abstract: a file is the list of records appended to it; entry sizes are plain lengths or the gzip member size (oracle: klauspost gzip at the default level, computed outside gowarc). float64 ratio scaling is an oracle. The name generator is assumed injective (PatternNameGenerator with {serial}). os.OpenFile/Stat/Sync/Close/Rename are assumed to behave as the model says; their failure paths are not modelled. Concurrent workers are C09/C10.',
     assumptions=[],
 )
